@@ -10,7 +10,7 @@ from .. import val as V
 from ..enc import Ctx
 from ..stubs import SeriesStubs
 from ..lieh import groups, family, algebra_input, algebra_of, n_alg, expm_oracle, MatrixCut
-from ..runner import run_harness_job
+from ..runner import run_harness_job, harness_jobs
 
 LEVEL = "proof"
 TRUSTED = ["CasADi SX construction + instruction API", "IR->SMT encoder (validated against CasADi's VM on every run)",
@@ -181,4 +181,4 @@ def get_harness(name, tier="quick"):
 
 
 def jobs(tier, seed):
-    return [(h.name, run_harness_job, (__name__, h.name, seed, tier)) for h in all_harnesses(tier)]
+    return harness_jobs(__name__, all_harnesses(tier), seed, tier)
